@@ -34,7 +34,8 @@ ASSUMPTIONS = [
 
 CLOCK_BUDGET = 20000
 STEP_CAP = 400
-FACTORS = [1, 1, 0.5, 0.5, 2, 0.25, 0.125, 4]
+FACTORS = [1, 1, 0.5, 0.5, 2, 0.25, 0.125, 4, 0.001, 0.0005]
+STALLS = [1200, 2500, 6000, 50000]      # lags of thousands of time steps ("processes that consume arbitrary amounts of wall time")
 INITIALS = [0, 0, 0, 1, 2.5, 4, 0.75]
 
 
@@ -136,6 +137,10 @@ class EnvRunner(kscript.Runner):
 
 def gen_tok_first(rng, factor, strict):
     x = rng.random()
+    if x < (0.006 if strict else 0.03):
+        # one heavy computation: the run falls thousands of time steps behind ("never raises this in non-strict mode" has no bound
+        # on the lag; rarer in strict mode, where the run ends after the second refusal)
+        return ['b', rng.choice(STALLS) * factor + rng.choice([0, 0.25, 7])]
     if x < 0.30:
         return None
     if x < 0.55:
@@ -365,6 +370,277 @@ def model_text(case, rec):
 
 
 # ------------------------------------------------------------------------------------------------
+# ORACLE-ONLY family: the realtime environment driven by run(until=<number>) (the Lean replay covers step() and sync() only)
+#
+# "It never processes an occurrence due at simulated time t before the wall clock reaches real_start + (t - initial_time)
+# * factor": the numeric run-until stop is such an occurrence (C01 lists it among the urgent ones) - `run(until=t)` that
+# returns with `now == t` has processed it.  Finite workloads that end before `until`, idle environments used as a paced
+# wait, `initial_time != 0`, several run(until) calls in a row with sync() in between.  Every step() the run loop makes is
+# tapped (an instance attribute wrapping the public method), so the per-occurrence rules of `oracle_pacing` apply inside run()
+# as well; on top of them: the wall clock at the return of run(until=t), the wall clock at every observation a process body
+# makes, and the equality of the trace with the plain Environment's.
+
+from onl.sim.core import StopSimulation
+
+
+class PacedRunner(EnvRunner):
+    """records the wall clock at which each observation of a process body is made"""
+
+    def __init__(self, case, env, clk, base):
+        super().__init__(case, env)
+        self.clk, self.base, self.seen = clk, base, []
+
+    def log(self, name, what, v):
+        self.seen.append((self.env.now, self.clk.t, self.base[0]))
+        super().log(name, what, v)
+
+
+def plain_until(case):
+    """the program on Environment under the same run(until) segments; returns (lines, instants of the kernel steps, ok)"""
+    kc = Case.from_json(case['kernel'])
+    env = Environment(case['initial'])
+    r = EnvRunner(kc, env)
+    r.start()
+    for seg in case['segments']:
+        if seg[0] != 'T':
+            continue
+        try:
+            v = env.run(until=seg[1])
+            r.lines.append(f'R {r.fmt_val(v)} @{r.now()}')
+        except BaseException as x:      # noqa
+            r.lines.append(f'X {r.fmt_exc(x)} @{r.now()}')
+            return r.lines, False
+    r.lines.append(f'F @{r.now()}')
+    return r.lines, True
+
+
+def gen_until(rng, cid):
+    for attempt in range(12):
+        prof = rng.choice(['time', 'time', 'time', 'outcome', 'cond', 'idle'])
+        kc = kgen.gen_generic(rng, cid, 'time' if prof == 'idle' else prof, malformed=False)
+        if prof == 'idle' or attempt == 11:
+            kc.mains = []               # nothing is ever scheduled: run(until=...) is a paced wait
+        kc.mode = 'step'
+        initial = rng.choice([0, 0, 1, 2.5, 4, 10, 0.75]) if rng.random() < 0.85 else round(rng.uniform(0, 9), rng.choice([1, 16]))
+        # the instants of the program's occurrences, from a plain run to exhaustion
+        env = Environment(initial)
+        r = EnvRunner(kc, env)
+        times, ok = [], True
+        try:
+            with quiet():
+                r.start()
+                for _ in range(300):
+                    env.step()
+                    times.append(env.now)
+                ok = False              # still busy: not a finite workload
+        except EmptySchedule:
+            pass
+        except BaseException:           # noqa  (programs that raise out of step() are not used here)
+            ok = False
+        if ok and (not times or times[-1] != math.inf):
+            break
+    t_end = times[-1] if times else initial
+    factor = rng.choice(FACTORS) if rng.random() < 0.8 else round(rng.uniform(0.05, 3), rng.choice([1, 2, 16]))
+    strict = rng.random() < 0.25
+    segs, now = [], initial
+    inner = sorted(set(t for t in times if t > initial))
+    for _ in range(rng.choice([0, 0, 1, 2])):           # stops inside the workload: at an occurrence's instant or between two
+        cand = [t for t in inner if t > now] + [t + 0.5 for t in inner if t + 0.5 > now and t + 0.5 < t_end]
+        if not cand:
+            break
+        now = rng.choice(cand)
+        segs.append(['T', now])
+        if rng.random() < 0.2:
+            segs.append(['y'])
+    for _ in range(rng.choice([1, 1, 2, 3])):           # stops beyond the last scheduled occurrence
+        if rng.random() < 0.25:
+            segs.append(['y'])
+        now = max(now, t_end) + rng.choice([0.5, 1, 2, 3.25, 10])
+        segs.append(['T', now])
+    steps = []
+    for _ in range(len(times) + len(segs) + rng.randint(0, 4)):
+        st = {}
+        f = gen_tok_first(rng, factor, strict)
+        if f:
+            st['first'] = f
+        if rng.random() < 0.4:
+            st['rest'] = [(['b', rng.choice([0, 0.03125, 0.25]) * factor] if rng.random() < 0.7 else None)
+                          for _ in range(rng.randint(1, 3))]
+        if rng.random() < 0.7:
+            st['sleeps'] = [gen_tok_sleep(rng) for _ in range(rng.randint(1, 4))]
+        steps.append(st)
+    start = rng.choice([0, 100, 1000.5, 12345.678, rng.uniform(0, 1e5)])
+    return {'cid': str(cid), 'family': 'until', 'kernel': kc.to_json(), 'initial': initial, 'factor': factor, 'strict': strict,
+            'segments': segs, 'workload_end': t_end,
+            'clock': {'start': start, 'create_burn': rng.choice([0, 0, 0.5, 3]) * factor, 'steps': steps,
+                      'sync': [rng.choice([0, 0.125, 1, 2.5]) * factor for _ in range(8)]}}
+
+
+def run_until(case):
+    """run the case on RealtimeEnvironment under the virtual clock, driven by run(until=number) / sync()"""
+    kc = Case.from_json(case['kernel'])
+    kc.cid = case['cid']
+    clk = VClock(case)
+    old = (rtmod.monotonic, rtmod.sleep)
+    rtmod.monotonic, rtmod.sleep = clk.monotonic, clk.sleep
+    rec = {'steps': [], 'rets': [], 'clock': clk, 'ended': None}
+    try:
+        clk.begin_other()
+        clk.t = clk.t + case['clock']['create_burn']
+        env = RealtimeEnvironment(initial_time=case['initial'], factor=case['factor'], strict=case['strict'])
+        clk.env = env
+        base = [clk.readings[-1] if clk.readings else None]     # the property's real_start: the reading taken at creation / by sync()
+        r = PacedRunner(kc, env, clk, base)
+        r.start()
+        orig_step = env.step
+
+        def tapped_step():
+            clk.begin_step(len(rec['steps']))
+            n0, m0 = len(clk.readings), len(clk.sleeps)
+            st = {'t': env.peek(), 'base': base[0], 'wall0': clk.t, 'outcome': None}
+            rec['steps'].append(st)
+            try:
+                orig_step()
+                st['outcome'] = 'processed'
+            except StopSimulation:
+                st['outcome'] = 'processed'
+                raise
+            except EmptySchedule:
+                st['outcome'] = 'empty'
+                raise
+            except ClockBudget:
+                st['outcome'] = 'clock-budget'
+                raise
+            except RuntimeError as x:
+                m = TOO_SLOW.match(str(x))
+                st['outcome'] = 'too-slow' if m else 'crash'
+                if m:
+                    st['msg'] = m.group(1)
+                raise
+            except BaseException:       # noqa
+                st['outcome'] = 'crash'
+                raise
+            finally:
+                st['readings'] = clk.readings[n0:]
+                st['sleeps'] = clk.sleeps[m0:]
+                st['wall'] = clk.t
+                clk.begin_other()
+
+        env.step = tapped_step
+        for seg in case['segments']:
+            if seg[0] == 'y':
+                n0 = len(clk.readings)
+                env.sync()
+                if len(clk.readings) > n0:
+                    base[0] = clk.readings[-1]
+                continue
+            ret = {'until': seg[1], 'base': base[0], 'steps_before': len(rec['steps'])}
+            rec['rets'].append(ret)
+            try:
+                v = env.run(until=seg[1])
+                ret.update(outcome='returned', now=env.now, wall=clk.t)
+                r.lines.append(f'R {r.fmt_val(v)} @{r.now()}')
+            except ClockBudget:
+                ret.update(outcome='clock-budget', now=env.now, wall=clk.t)
+                rec['ended'] = 'clock-budget'
+                break
+            except RuntimeError as x:
+                if TOO_SLOW.match(str(x)):
+                    ret.update(outcome='too-slow', now=env.now, wall=clk.t)
+                    rec['ended'] = 'too-slow'
+                    break
+                ret.update(outcome='crash', now=env.now, wall=clk.t)
+                r.lines.append(f'X {r.fmt_exc(x)} @{r.now()}')
+                rec['ended'] = 'crash'
+                break
+            except BaseException as x:  # noqa
+                ret.update(outcome='crash', now=env.now, wall=clk.t)
+                r.lines.append(f'X {r.fmt_exc(x)} @{r.now()}')
+                rec['ended'] = 'crash'
+                break
+        if rec['ended'] is None:
+            r.lines.append(f'F @{r.now()}')
+        rec['lines'] = r.lines
+        rec['seen'] = r.seen
+    finally:
+        rtmod.monotonic, rtmod.sleep = old
+    return rec
+
+
+def oracle_until(case, rec, stats):
+    f, ini = case['factor'], case['initial']
+    fails = oracle_pacing(case, rec, stats)            # every occurrence the run loop turned to, by the rules of the property
+    for ret in rec['rets']:
+        stats['until:' + str(ret.get('outcome'))] += 1
+        if ret.get('outcome') != 'returned':
+            continue
+        beyond = ret['until'] > case['workload_end']
+        stats['until:beyond-the-last-scheduled-occurrence' if beyond else 'until:inside-the-workload'] += 1
+        due = ret['base'] + (ret['until'] - ini) * f
+        if ret['now'] == ret['until'] and ret['wall'] < due:
+            fails.append({'what': f'run(until={ret["until"]}) returned with now == {ret["now"]} at wall clock {ret["wall"]} < {due} = real_start {ret["base"]} + '
+                                  f'({ret["until"]} - {ini}) * {f}: the stop due at simulated {ret["until"]} was processed '
+                                  f'{due - ret["wall"]} s ahead of the wall clock ({"no occurrence was left before the stop" if beyond else "stop inside the workload"}; '
+                                  f'{len(rec["steps"]) - ret["steps_before"]} step() calls were made by this run)',
+                          'signature': 'run-until-returned-early'})
+    for now, wall, base in rec['seen']:
+        stats['until:observations-by-process-bodies'] += 1
+        if wall < base + (now - ini) * f:
+            fails.append({'what': f'a process body observed now == {now} at wall clock {wall} < {base + (now - ini) * f} = real_start {base} + ({now} - {ini}) * {f}',
+                          'signature': 'observed-early'})
+            break
+    plain, ok = rec['plain']
+    a = rec['lines']
+    if rec['ended'] in ('too-slow', 'clock-budget'):
+        if a != plain[:len(a)]:
+            d = first_diff(a, plain[:len(a)])
+            fails.append({'what': f'run(until) on RealtimeEnvironment (refused at some point: {rec["ended"]}) is not a prefix of the Environment trace: '
+                                  f'line {d[0]}: rt `{d[1]}` plain `{d[2]}`', 'signature': 'rt-trace-differs'})
+    elif a != plain:
+        d = first_diff(a, plain)
+        fails.append({'what': f'run(until) traces of RealtimeEnvironment and Environment differ at line {d[0]}: rt `{d[1]}` plain `{d[2]}`',
+                      'signature': 'rt-trace-differs'})
+    return fails
+
+
+def run_until_family(ctx, cases):
+    orc, hist, nontriv, samples = [], collections.Counter(), 0, []
+    saved = (rtmod.monotonic, rtmod.sleep)
+    for c in cases:
+        try:
+            with quiet():
+                rec = run_until(c)
+                rec['plain'] = plain_until(c)
+        finally:
+            rtmod.monotonic, rtmod.sleep = saved
+        st = collections.Counter()
+        fails = oracle_until(c, rec, st)
+        hist.update(st)
+        hist['strict' if c['strict'] else 'non-strict'] += 1
+        hist['initial_time!=0'] += int(c['initial'] != 0)
+        hist['idle environment'] += int(not c['kernel']['mains'])
+        hist['ops:sync'] += sum(1 for s in c['segments'] if s[0] == 'y')
+        if st['until:beyond-the-last-scheduled-occurrence']:
+            nontriv += 1
+            if len(samples) < 1 and c['kernel']['mains']:
+                samples.append({'case': c, 'rt_trace': rec['lines'][:40]})
+        seen_sig = set()
+        for f in fails:
+            if f['signature'] in seen_sig:
+                continue
+            seen_sig.add(f['signature'])
+            f['case'] = c
+            f['trace'] = {'rt': rec['lines'][:200], 'plain': rec['plain'][0][:200], 'returns': rec['rets'],
+                          'steps': [{k: v for k, v in s.items()} for s in rec['steps'][:60]]} if len(orc) < 25 else {}
+            orc.append(f)
+    cov = {'evaluations': len(cases), 'distinct_nontrivial': nontriv, 'oracle_only': True,
+           'rule': 'ORACLE-ONLY (outside the Lean replay): finite kernel programs / idle environments on RealtimeEnvironment driven by run(until=number) and sync() '
+                   'under scripted clocks; non-trivial = a run(until) beyond the last scheduled occurrence returned',
+           'samples': samples, 'operation_histogram': dict(sorted(hist.items()))}
+    return cov, orc
+
+
+# ------------------------------------------------------------------------------------------------
 # oracle 2: the pacing rules, from the recorded clock
 
 def oracle_pacing(case, rec, stats):
@@ -438,6 +714,12 @@ def run(ctx):
         cases += [d['case'] for d in (j.get('broken_correspondence') or []) if d.get('case')]
     else:
         cases = [gen_case(rng, i) for i in range(n)]
+    rng_u = random.Random(f'C20-until-{ctx.seed}')
+    if ctx.replay:
+        until_cases = [c for c in cases if c.get('family') == 'until']
+        cases = [c for c in cases if c.get('family') != 'until']
+    else:
+        until_cases = [gen_until(rng_u, f'u{i}') for i in range(400 if ctx.quick else 8000)]
     for i, c in enumerate(cases):
         c['cid'] = str(i)
     disagreements, oracle_failures = [], []
@@ -471,7 +753,9 @@ def run(ctx):
         'clock_readings_replayed': tot['readings'],
         'operation_histogram': dict(sorted(hist.items())),
     }
-    return {'coverage': cov, 'disagreements': disagreements, 'oracle_failures': oracle_failures}
+    ucov, uorc = run_until_family(ctx, until_cases)
+    cov['run_until_family_oracle_only'] = ucov       # counted apart: not part of `evaluations` / the correspondence
+    return {'coverage': cov, 'disagreements': disagreements, 'oracle_failures': oracle_failures + uorc}
 
 
 def compare_chunk(cases, recs, model, disagreements, oracle_failures, hist, distinct, samples, tot):
